@@ -5,8 +5,11 @@ the remapped circuit un-mapped through BackendQubitMapping; total counts conserv
 register size max(target)+1 and acts as the original on relabelled qubits and as identity elsewhere;
 duplicate targets / unmapped used qubits are rejected."""
 import json
+import collections
+import collections.abc
 import os
 import random
+import types
 import sys
 
 import numpy as np
@@ -24,6 +27,27 @@ IMPORTS = "From Coq Require Import ZArith NArith List.\nFrom QPM Require Import 
 DEFS = """
 Definition encc (d : counts) : list Z := flat_map (fun bc => [Z.of_N (fst bc); snd bc]) d.
 """
+
+
+class ReadOnlyMapping(collections.abc.Mapping):
+    """a Mapping that is not a dict"""
+
+    def __init__(self, d):
+        self._d = dict(d)
+
+    def __getitem__(self, k):
+        return self._d[k]
+
+    def __iter__(self):
+        return iter(self._d)
+
+    def __len__(self):
+        return len(self._d)
+
+
+def as_mapping(mp, i):
+    """the qubit mapping is documented as a Mapping[int, int]: hand it over in the forms that type allows"""
+    return [dict, collections.OrderedDict, types.MappingProxyType, ReadOnlyMapping][i % 4](mp)
 
 
 def main():
@@ -46,7 +70,7 @@ def main():
         cs = {}
         for _ in range(rng.randint(0, 6)):
             cs[rng.getrandbits(reg)] = rng.randint(1, 50)
-        bm = BackendQubitMapping(mp)
+        bm = BackendQubitMapping(as_mapping(mp, len(terms)))
         real = bm.unmap_sampling_counts(cs)
         mcoq = "[" + "; ".join(f"({kk}%nat, {vv}%nat)" for kk, vv in mp.items()) + "]"
         ccoq = "[" + "; ".join(f"({b}%N, {c})" for b, c in cs.items()) + "]"
@@ -84,7 +108,7 @@ def main():
         reg = rng.randint(n, 7)
         vals = rng.sample(range(reg), n)
         mp = dict(zip(range(n), vals))
-        bm = BackendQubitMapping(mp)
+        bm = BackendQubitMapping(as_mapping(mp, _))
         m = max(vals) + 1
         res.count(("dist", tuple(mp.items()), tuple(map(str, describe(c)))), bucket="distribution")
         try:
